@@ -61,8 +61,10 @@ prop(
         'Ownership/effect analysis. A1: all 36 AST / type-token / definition classes are @frozen with generated eq/hash and '
         'define no __eq__/__hash__/__setattr__. A2: metadata is factory=dict, init=False, eq=False and no other AST field is '
         'excluded from equality. M1 (who may write): every object.__setattr__/setattr/__dict__ site in the package is either '
-        'on self inside __attrs_post_init__ or the single narrowing write of _type_check under `force`; force=True is passed '
-        'only by attrs field validators, on the value being validated, at a fixed parameter type. M2: every call of a forcing '
+        'on self inside __attrs_post_init__ or the narrowing primitive (data_type of a parameter) inside a private '
+        'HplExpression method; a writer summary follows the narrowed parameter through helper calls (flags such as `force` '
+        'included) to the sites that decide to narrow: those are attrs field validators narrowing the value being validated '
+        'to a fixed parameter type, or field declarations using the validator factory with a constant type. M2: every call of a forcing '
         'constructor (classes whose operand validators narrow the argument object in place: derived from the validators) in '
         'rewrite.py / predicates.py / events.py / properties.py is checked by a may-provenance dataflow: an argument that '
         'may be drawn from a child slot whose stored type is wider than the parameter type (set elements, function '
